@@ -373,7 +373,12 @@ func (c *Cluster) opFairCycle(s *Step) {
 			if p == nil {
 				continue
 			}
-			a.node.SimGossip(p)
+			if err := a.node.SimGossip(p); err != nil {
+				a.fairFail++
+				a.fairLastErr = err.Error()
+			} else {
+				a.fairOK++
+			}
 			progress.Add(1)
 			synctest.Wait()
 			c.runWakeups()
